@@ -21,7 +21,21 @@ def _fuzzjob(binname, replay_bin, runs, procs, params=None, max_len=2400):
                                   "-rss_limit_mb=6000", "-print_final_stats=1", "-verbosity=0", "{corpus}"]}}
 
 
+def _rt(qt, cap, mx):
+    return {"sources": ["harness/rt_stress.cpp", "engine/rc_driver.cpp"], "flavour": "plain", "libs": RC_LIBS, "harness": "rtstress",
+            "defines": [f"RT_QUEUE_TYPE={qt}", f"RT_CAP={cap}", f"RT_MAX={mx}"]}
+
+
+def _rtjob(binname, prop, quick_cases=40, quick_procs=2):
+    return {"bin": binname, "params": {"prop": prop}, "confirm": 2,
+            "quick": {"cases": quick_cases, "procs": quick_procs, "maxlen": 400},
+            "thorough": {"cases": 1500, "procs": 4, "maxlen": 400}}
+
+
 BINARIES = {
+    "rt_bd4k": _rt("BoundedDropping", 4096, 4096),
+    "rt_bb4k": _rt("BoundedBlocking", 4096, 4096),
+    "rt_ub": _rt("UnboundedBlocking", 4096, 65536),
     "qtsan": {"sources": ["harness/queue_tsan.cpp", "engine/rc_driver.cpp"], "flavour": "tsan", "libs": RC_LIBS, "harness": "qtsan"},
     "tsfmt_fuzz": _fuzzbin("harness/tsfmt.cpp"),
     "pattern_fuzz": _fuzzbin("harness/pattern.cpp"),
@@ -83,6 +97,7 @@ HOOKS = {
 ENGINES = {
     "sim": {"path": "engine/sim.h", "serves": ["C03", "C05", "C06", "C08", "C09", "C10", "C16", "C17", "C18", "C20"],
             "kind": "harness-owned backend schedule: scheduler thread == ManualBackendWorker, baton-driven worker threads, interposed nanosleep/clock_gettime (blocked state, virtual time), yield-point bursts; harness/sim_main.cpp + sim_ops.h + sim_oracles.h"},
+    "rtstress": {"path": "harness/rt_stress.cpp", "serves": ["C03", "C06", "C08"], "kind": "real backend thread + 1-4 real frontend threads running generated programs under the OS scheduler; schedule-independent oracles at quiescence (second opinion for races inside backend/frontend functions that the serialised sim cannot interleave)"},
     "qtsan": {"path": "harness/queue_tsan.cpp", "serves": ["C01", "C02"], "kind": "real two-thread stress of the unmodified std::atomic queue code under ThreadSanitizer with generated configurations"},
     "wmm": {"path": "engine/wmm.h", "serves": ["C01", "C02", "C09"],
             "kind": "std::atomic retarget shim with per-location store history, vector clocks, coherence floors, choice-driven stale loads, coroutine scheduler, payload happens-before race detector"},
@@ -145,7 +160,7 @@ PROPERTIES = {
                             "full queue OR a burst ran between queue reads / decoded records / processed events); distinct = FNV hash "
                             "of the rendered case (config + op list + counters)"),
         "assumptions": ["statements <= queue capacity on blocking queues (documented)"],
-        "jobs": _simjobs("C03", ["sim_bb256", "sim_bb1k", "sim_bb4k", "sim_ub", "sim_ubs"]),
+        "jobs": _simjobs("C03", ["sim_bb256", "sim_bb1k", "sim_bb4k", "sim_ub", "sim_ubs"]) + [_rtjob("rt_bb4k", "C03"), _rtjob("rt_ub", "C03")],
     },
     "C05": {
         "technique": "stateful property-based testing with virtual time: stalls inside the timestamp read, ticks around the grace period, yield-point bursts; oracle = non-decreasing sink timestamps under the stated precondition",
@@ -170,7 +185,7 @@ PROPERTIES = {
         "rule": SIM_CASE + ("non-trivial = >= 2 threads logged AND a flush was issued while statements of OTHER threads whose calls had "
                             "completed were required to be written by it"),
         "assumptions": ["flush_log is never called from the backend thread (documented)"],
-        "jobs": _simjobs("C06", ["sim_bb1k", "sim_ub", "sim_bd1k", "sim_ud"]),
+        "jobs": _simjobs("C06", ["sim_bb1k", "sim_ub", "sim_bd1k", "sim_ud"]) + [_rtjob("rt_bb4k", "C06"), _rtjob("rt_bd4k", "C06")],
     },
     "C08": {
         "technique": "stateful property-based testing on dropping queue flavours: return value <=> delivery, reported drops == false returns, control requests never dropped",
@@ -181,7 +196,7 @@ PROPERTIES = {
         "level_note": SIM_NOTE,
         "rule": SIM_CASE + "non-trivial = >= 1 statement dropped AND >= 1 statement delivered after a drop on the same thread",
         "assumptions": ["the drop report is defined for bounded dropping queues only (code and property agree)"],
-        "jobs": _simjobs("C08", ["sim_bd256", "sim_bd1k", "sim_ud"], quick_procs=3),
+        "jobs": _simjobs("C08", ["sim_bd256", "sim_bd1k", "sim_ud"], quick_procs=3) + [_rtjob("rt_bd4k", "C08", quick_cases=60, quick_procs=3)],
     },
     "C09": {
         "technique": "stateful property-based testing: stall-state reachability (blocked worker + empty queues + idle backend) in a harness-owned schedule, plus the queue-level quiescence probe under the memory-model simulation",
